@@ -43,7 +43,7 @@ ASSUMPTIONS = [
 _CLS = ["variant/plain", "variant/tree", "variant/mercurius", "invalid_index", "invalid_hash", "growth128", "growth256",
         "growth512", "stale_lookup", "lookup_dup", "lookup_zero", "lookup_absent", "rm_sorted", "rm_unsorted",
         "rm_by_hash", "rm_last_particle", "n_active_dec", "tree_flag", "tree_update_removed", "tree_sorted_refused",
-        "dcrit_shift", "dcrit_short", "rm_all"]
+        "dcrit_shift", "dcrit_short", "rm_all", "invalid_add_outside"]
 CLASSES = ["c_api/" + c for c in _CLS] + ["py_api/" + c for c in _CLS] + ["py_api/named", "py_api/held_access",
                                                                           "py_api/storage_full", "py_api/held_after_realloc"]
 
@@ -146,6 +146,7 @@ def op_strategy(named, py):
         (8, st.integers(0, 255).map(lambda k: ["n_active", k])),
         (12, st.just(["aux"])),
         (6, st.just(["look_all"])),
+        (5, st.tuples(st.integers(0, 255), st.integers(0, 3)).map(lambda t: ["add_out", t[0], t[1]])),
     ]
     if py:
         ops += [
@@ -205,7 +206,7 @@ def history_strategy(named, py, variants=("plain", "tree", "mercurius")):
 # ---------------------------------------------------------------------------------------
 # byte encoding for the C driver (only the ops of the common language)
 
-OPC = {"add": 0, "rm_i": 1, "rm_h": 2, "set_h": 3, "look": 4, "rm_all": 5, "n_active": 6, "aux": 7, "look_all": 8}
+OPC = {"add": 0, "rm_i": 1, "rm_h": 2, "set_h": 3, "look": 4, "rm_all": 5, "n_active": 6, "aux": 7, "look_all": 8, "add_out": 9}
 
 
 def encode(case):
@@ -227,6 +228,8 @@ def encode(case):
             b += bytes([o[1] % 3, o[2] & 255, (o[2] >> 8) & 255])
         elif k == "n_active":
             b.append(o[1] & 255)
+        elif k == "add_out":
+            b += bytes([o[1] & 255, o[2] & 3])
     return bytes(b)
 
 
@@ -236,10 +239,10 @@ def decode(raw):
         return {"variant": "plain", "flags": 0, "ops": []}
     case = {"variant": VARIANT_NAMES[raw[0] % 3], "flags": raw[1], "ops": []}
     pos, n = 2, len(raw)
-    nargs = {0: 4, 1: 3, 2: 4, 3: 4, 4: 3, 5: 0, 6: 1, 7: 0, 8: 0}
+    nargs = {0: 4, 1: 3, 2: 4, 3: 4, 4: 3, 5: 0, 6: 1, 7: 0, 8: 0, 9: 2}
     names = {v: k for k, v in OPC.items()}
     while pos < n:
-        op = raw[pos] % 9
+        op = raw[pos] % 10
         pos += 1
         if pos + nargs[op] > n:
             break
@@ -257,6 +260,8 @@ def decode(raw):
             case["ops"].append(["look", a[0] % 3, a[1] | (a[2] << 8)])
         elif op == 6:
             case["ops"].append(["n_active", a[0]])
+        elif op == 9:
+            case["ops"].append(["add_out", a[0], a[1] % 4])
         else:
             case["ops"].append([names[op]])
     return case
@@ -680,6 +685,8 @@ class Runner:
             elif k == "n_active":
                 self.na, self.na_known = o[1] % (len(self.P) + 2) - 1, True
                 sim.N_active = self.na
+            elif k == "add_out":
+                self.do_add_out(o[1], o[2])
             elif k == "aux":
                 self.do_aux()
             elif self.front == "py":
@@ -688,6 +695,41 @@ class Runner:
                 self.check_container(self.psA, "held container (used after every operation)", full=False)
                 self.check_container(sim.particles, "fresh sim.particles", full=False)
         sim = None
+
+    def do_add_out(self, sel, mg):
+        """Tree variant: an add outside the configured box is an invalid request: it must fail and change nothing."""
+        if self.variant != "tree":
+            return
+        from ..oracles import sa_format
+        from .. import rb
+        ct, sim = self.ct, self.sim
+        half = 50.0
+        out = [math.nextafter(half, math.inf), half + 1e-4, 75.0, 1e6][mg % 4]
+        if sel & 4:
+            out = -out
+        pos = {"x": 1.0, "y": 2.0, "z": 3.0}
+        pos["xyz"[sel % 3]] = out
+        h = POOL[sel % 8]
+        st0 = read_state(sim)
+        if self.front == "c":
+            p = self.rebound.Particle(m=1.0, x=pos["x"], y=pos["y"], z=pos["z"], vx=0.0, vy=0.0, vz=0.0, r=0.0, hash=ct.c_uint32(h))
+            self.L.reb_simulation_add(ct.byref(sim), p)
+            failed = bool(self.messages())
+        else:
+            try:
+                sim.add(m=1.0, x=pos["x"], y=pos["y"], z=pos["z"], vx=0.0, vy=0.0, vz=0.0, r=0.0, hash=ct.c_uint32(h))
+                failed = False
+            except RuntimeError:
+                self.messages()
+                failed = True
+        if not failed:
+            self.fail("add at %s=%r (outside the box, half size %r) reported no error" % ("xyz"[sel % 3], out, half))
+        st1 = read_state(sim)
+        if st1[0] != st0[0]:
+            self.fail("rejected add outside the box (%s=%r) changed the simulation" % ("xyz"[sel % 3], out),
+                      diff=sa_format.map_diff(st0[0], st1[0], rb.field_names())[:6])
+        self.cls.add("invalid_add_outside")
+        self.verify(True, st1)
 
     def do_aux(self):
         ct, sim = self.ct, self.sim
@@ -847,7 +889,7 @@ def run_history(front):
         finally:
             for c in r.cls:
                 ctx.cls(c)
-        if r.cls & {"stale_lookup", "growth128", "growth256", "growth512", "invalid_index", "invalid_hash"}:
+        if r.cls & {"stale_lookup", "growth128", "growth256", "growth512", "invalid_index", "invalid_hash", "invalid_add_outside"}:
             ctx.nontrivial()
     return fn
 
@@ -961,6 +1003,7 @@ FUZZ_SEEDS = [
     {"variant": "plain", "flags": 0, "ops": [["add", 1, 0, 3], ["look", 1, 0], ["rm_i", 0, 1, 1], ["look", 1, 1], ["rm_h", 1, 2, 0], ["look_all"]]},
     {"variant": "plain", "flags": 0, "ops": [["add", 2, 0, 200], ["add", 0, 0, 200], ["rm_i", 1, 0, 0], ["look_all"], ["rm_all"], ["add", 1, 3, 2]]},
     {"variant": "tree", "flags": 1, "ops": [["add", 1, 0, 3], ["rm_i", 0, 1, 0], ["aux"], ["rm_i", 0, 0, 1], ["add", 2, 0, 130], ["rm_h", 1, 1, 0], ["aux"], ["rm_all"], ["add", 0, 0, 1], ["aux"]]},
+    {"variant": "tree", "flags": 0, "ops": [["add", 1, 0, 2], ["add_out", 4, 0], ["look_all"], ["add_out", 1, 2], ["add", 2, 0, 1], ["aux"]]},
     {"variant": "mercurius", "flags": 0, "ops": [["add", 1, 0, 3], ["aux"], ["add", 2, 0, 1], ["rm_i", 0, 1, 1], ["aux"], ["rm_i", 0, 9, 1], ["n_active", 3], ["rm_i", 0, 1, 0]]},
 ]
 
